@@ -14,6 +14,9 @@ import AutosarVerif.Gen.NamesAttr
 import AutosarVerif.Gen.NamesEnum
 import AutosarVerif.Gen.Versions
 import AutosarVerif.Gen.SpecData
+import AutosarVerif.Model.Regex
+import AutosarVerif.Gen.RegexStrings
+import AutosarVerif.Gen.DfaData
 import Driver.Proto
 
 open AV AV.Proto AV.Gen
@@ -32,6 +35,42 @@ def tableOf (k : String) : Option (Hash.NameTable × Array Nat) :=
   | "A" => some (Attr.table, attrArr)
   | "I" => some (Enum.table, enumArr)
   | _ => none
+
+/-- the published regex of `validate_regex_k`, parsed once -/
+def parsedRegexes : List (Nat × Option Rx.Re) := regexStrings.map fun (k, t) => (k, Rx.parseRegex t)
+
+def regexOf (k : Nat) : Option Rx.Re :=
+  match parsedRegexes.find? (·.1 == k) with
+  | some (_, some r) => some r
+  | _ => none
+
+def dfaOf (k : Nat) : Option Rx.Dfa := (allDfas.find? (·.1 == k)).map (·.2)
+
+/-- shortest string on which the table of validator `k` and its regex differ (breadth-first over
+the product of DFA states and derivatives); `none` if the product closes without a difference -/
+def diffSearch (d : Rx.Dfa) (r : Rx.Re) : Option (List Nat × Bool × Bool) :=
+  let rec go (fuel : Nat) (work : List (Nat × Rx.Re × List Nat)) (seen : List Rx.Pair) : Option (List Nat × Bool × Bool) :=
+    match fuel, work with
+    | 0, _ => none
+    | _, [] => none
+    | fuel + 1, (q, r, acc) :: rest =>
+      if q == 255 then
+        -- the DFA has rejected; any accepted continuation of r is a difference
+        if Rx.nullable r then some (acc.reverse, false, true)
+        else
+          let succs := (List.range 256).filterMap fun b =>
+            let r' := Rx.deriv b r
+            if r' == Rx.Re.empty || Rx.pairIn seen 255 r' then none else some (255, r', b :: acc)
+          go fuel (rest ++ succs) (seen ++ succs.map fun (q, r, _) => (q, r))
+      else if d.accepts q != Rx.nullable r then some (acc.reverse, d.accepts q, Rx.nullable r)
+      else
+        let succs := (List.range 256).foldl (fun (a : List (Nat × Rx.Re × List Nat)) b =>
+          let q' := d.step q b
+          let r' := Rx.deriv b r
+          if (q' == 255 && r' == Rx.Re.empty) || Rx.pairIn seen q' r' || a.any (fun (x, y, _) => x == q' && y == r') then a
+          else (q', r', b :: acc) :: a) []
+        go fuel (rest ++ succs.reverse) (seen ++ succs.map fun (q, r, _) => (q, r))
+  go 20000 [(0, r, [])] [(0, r)]
 
 def showOptNat : Option Nat → String
   | some n => s!"ok {n}"
@@ -67,6 +106,32 @@ def answer (S : Spec) (ws : List String) : String :=
     match tableOf k, i.toNat? with
     | some (T, arr), some i => if i < T.nNames then s!"ok {hexOrDash (Hash.unpack 256 (arr.getD i 0))}" else "bad-op"
     | _, _ => "bad-op"
+  | ["validate", k, h] =>
+    -- the property's ground truth: does the string match the published regex of validate_regex_k
+    match k.toNat?, bytesOfHex h with
+    | some k, some b =>
+      match regexOf k with
+      | some r => s!"ok {Rx.matchD r (b.map (·.toNat))}"
+      | none => "none"
+    | _, _ => "bad-op"
+  | ["dfa", k, h] =>
+    -- the model of the code: the table-driven loop of validate_regex_k
+    match k.toNat?, bytesOfHex h with
+    | some k, some b =>
+      match dfaOf k with
+      | some d => s!"ok {d.run (b.map (·.toNat))}"
+      | none => "none"
+    | _, _ => "bad-op"
+  | ["diffsearch", k] =>
+    match k.toNat? with
+    | some k =>
+      match dfaOf k, regexOf k with
+      | some d, some r =>
+        match diffSearch d r with
+        | some (w, a, b) => s!"ok {hexOrDash (w.map UInt8.ofNat)} dfa={a} regex={b}"
+        | none => "none"
+      | _, _ => "none"
+    | none => "bad-op"
   | ["ver_parse", h] =>
     match bytesOfHex h with
     | some b => showOptNat (versionTable.parse (b.map (·.toNat)))
